@@ -64,6 +64,8 @@ def srcP {ρ} (S : Sem ρ) (vals : List ρ) (ev : Nat → Option ρ) : Src → O
   | .val v => some (S.atom v)
   | .conn sib => ev sib
   | .link i => some (vals.getD i S.nd)
+  | .multi [] => some S.nd
+  | .multi (sib :: _) => ev sib
 
 def evalP {ρ} (S : Sem ρ) : Nat → List ρ → List (Nat × T) → Nat → Option ρ
   | 0, _, _, _ => none
@@ -94,6 +96,17 @@ def fetchIns {ρ} (S : Sem ρ) (vals : List ρ) (rk : Kids ρ → Nat → Option
     | none => none
     | some (k, vs) => some (k, vals.getD i S.nd :: vs)
   | kids, .conn sib :: r =>
+    match rk kids sib with
+    | none => none
+    | some (k1, o) =>
+      match fetchIns S vals rk k1 r with
+      | none => none
+      | some (k2, vs) => some (k2, o :: vs)
+  | kids, .multi [] :: r =>
+    match fetchIns S vals rk kids r with
+    | none => none
+    | some (k, vs) => some (k, S.nd :: vs)
+  | kids, .multi (sib :: _) :: r =>
     match rk kids sib with
     | none => none
     | some (k1, o) =>
